@@ -498,3 +498,60 @@ impl Val for Option<std::sync::Arc<Payload>> {
     fn note_owner(&self, _d: isize) {}
     fn note_guard(&self, _d: isize) {}
 }
+
+// ---- the weak pointer kind as a stored value: the targets are kept alive by a keeper, so the
+// container (which must not keep them alive itself) can be checked by identity; emptying the keeper
+// at the end lets the allocations go once the last Weak is released (LSan / Miri decide that).
+
+static KEEPER: Mutex<Vec<std::sync::Arc<Payload>>> = Mutex::new(Vec::new());
+
+pub fn weak_keeper_clear() -> usize {
+    let v = std::mem::take(&mut *KEEPER.lock().unwrap_or_else(|e| e.into_inner()));
+    let n = v.len();
+    drop(v);
+    n
+}
+
+impl Val for std::sync::Weak<Payload> {
+    const NAME: &'static str = "Weak";
+    fn fresh(id: u64) -> Self {
+        ARC_LIVE.fetch_add(1, Relaxed);
+        ALLOCS.fetch_add(1, Relaxed);
+        let a = std::sync::Arc::new(Payload { cell: UnsafeCell::new([id, !id]), vec: vec![id; 3] });
+        let w = std::sync::Arc::downgrade(&a);
+        KEEPER.lock().unwrap_or_else(|e| e.into_inner()).push(a);
+        w
+    }
+    fn none() -> Self {
+        std::sync::Weak::new()
+    }
+    fn vid(&self) -> u64 {
+        match self.upgrade() {
+            Some(a) => {
+                let [x, y] = unsafe { std::ptr::read_volatile(a.cell.get()) };
+                if x != !y || a.vec.len() != 3 || a.vec[2] != x {
+                    report("C01", "payload-corrupt", format!("payload ({:#x},{:#x}) behind a Weak is corrupt", x, y));
+                }
+                x
+            }
+            None => {
+                if !std::sync::Weak::ptr_eq(self, &std::sync::Weak::new()) {
+                    report("C15", "weak-target-gone", "a Weak loaded from the container cannot be upgraded although its target is kept alive".to_string());
+                }
+                0
+            }
+        }
+    }
+    fn addr(&self) -> usize {
+        if std::sync::Weak::ptr_eq(self, &std::sync::Weak::new()) {
+            0
+        } else {
+            std::sync::Weak::as_ptr(self) as usize
+        }
+    }
+    fn strong(&self) -> usize {
+        std::sync::Weak::weak_count(self)
+    }
+    fn note_owner(&self, _d: isize) {}
+    fn note_guard(&self, _d: isize) {}
+}
